@@ -12,7 +12,11 @@ TECHNIQUE = ('translation validation by symbolic execution: the three pure strin
              'C-API PyOS_double_to_string); table agreement Python <-> C for the helper interface (arity, literal kinds, name-aligned order, handled format characters); '
              'guard dominance (pyflow) for conversion_char; key completeness for the f-string de-duplication; cache-key completeness (def-use closure + path facts) of the '
              'memo slots on the shared type objects; decision tables of the !s / str() elision by path enumeration of the four deciding functions over all valuations of their '
-             'atomic tests (rules/sC18.py)')
+             'atomic tests (rules/sC18.py); fourth round (rules/s4C18.py, rules/sC18.py): abstract interpretation of the C helpers with a checker-side interpreter - integers as '
+             'linear forms over the number of digits, character buffers as piece lists with symbolic lengths, code points as bit vectors - over the complete partitions induced by '
+             'the comparisons of the code (sign x width-relative-to-digits x padding; or-combinations of string kinds; code-point classes x width classes); symbolic extraction of '
+             'the per-format-character digit step (modulus, divisor, stride, table) against the numeral tables; decision tables / path facts (pyflow) for the Python-side f-string '
+             'machinery (constant folding, helper selection, operand arity, length/kind accounting, default specs)')
 DECIDES = ('C18-INT: for every format-spec shape, if CIntLike._parse_format accepts it for C-level formatting then CPython accepts it for an int and it means right alignment '
            'with space padding or sign-aware zero padding with exactly the returned (format char, width, padding); rejected-by-CPython specs (sign with c, precision, ...) are '
            'not accepted. C18-CHR: every format character it returns is handled by the C helper (macro routing, switch cases, remapping tests read from TypeConversion.c). '
@@ -33,9 +37,34 @@ DECIDES = ('C18-INT: for every format-spec shape, if CIntLike._parse_format acce
            'decision to use the slot and in the decision to fill it (CIntLike.convert_to_pystring: the helper instantiated for `int` is not served for an external typedef passed as name_type). '
            'C18-STRNONE: FormattedValueNode.analyse_types / generate_result_code, OptimizeBuiltinCalls._handle_simple_function_unicode / visit_FormattedValueNode drop the str()/!s '
            'conversion (bare operand returned, conversion call not emitted) only for conversion !s or none, without a format spec where the node itself disappears, on a statically-str '
-           'operand AND after may_be_none() was excluded; !r !a (and the internal d) are always applied.')
-NOT_DECIDED = ('the produced text in general: digit generation, sign and padding arithmetic inside the C helpers (__Pyx__PyUnicode_From_*, BuildFromAscii, FromOrdinal_Padded), '
-               'PyOS_double_to_string flags (Py_DTSF_ADD_DOT_0 only for repr), string joining (length/kind computation of JoinedStrNode); invalid %-templates (a "-" after the '
+           'operand AND after may_be_none() was excluded; !r !a (and the internal d) are always applied. '
+           'C18-DIGITS: per format character reaching the digit switch of __Pyx__{{TO_PY_FUNCTION}}: remainder modulus == divisor == base**k, k characters written contiguously below '
+           'the previous position, table stride k, the table holds the k-digit numerals in order (upper case for X), the index goes through abs(), the excess-zero flag is true exactly '
+           'for indices < base**(k-1), the loop runs until the value is 0, the stack buffer holds the longest text of 1..16-byte types. '
+           'C18-LAYOUT: the tail of that function + __Pyx_PyUnicode_BuildFromAscii (both #if branches) produce, for every class of (signedness, sign class of the value incl. -1/0, one digit / '
+           'n digits, excess zero, width absolute 0/1 or n-1..n+6, padding space/0), exactly [spaces][-]digits resp. [-][zeros]digits of total length max(width, digits+sign), every cell '
+           'written, nothing outside the allocation, allocated as ASCII. '
+           'C18-CHRPAD: __Pyx_PyUnicode_FromOrdinal_Padded gives padding*(width-1)+chr(value) for every class of code points (all constants of the function and the UTF-8/Latin-1/surrogate '
+           'boundaries) x width classes around its limits: stack buffer bounds, surrogates never through the UTF-8 decoder, encoded bytes == RFC 3629 bit slices (bit-vector domain). '
+           'C18-JOINC: __Pyx_PyUnicode_Join for all 8 or-combinations of kinds: canonical allocation (max_char table + clamp), memcpy offset/size scaled by the character size, '
+           'CopyCharacters arguments, write position advances by the substring length on every path (both copy configurations of CPython). '
+           'C18-CHELP: Py_DTSF_ADD_DOT_0 exactly for the repr code; __Pyx_PyUnicode_Unicode maps exactly None to the text str(None); type fast paths of FormatSimple/Format test the exact '
+           'type and use the slots/formatter of that type. '
+           'C18-FOLD: ConstantFolding.visit_FormattedValueNode unwraps only string literals under !s/none without spec, folds only int constants without spec, discards only an empty literal spec. '
+           'C18-EMIT: FormatSimple* only on paths without format spec; emitted (value, spec) order == the order every C helper hands to PyObject_Format; the conversion call wraps the value. '
+           'C18-CONVSEL: per conversion character, c_format_spec + format spec only for none / d; the no-spec default is the default_format_spec of the value type. '
+           'C18-ARITY: no %-rewrite for a multiplied tuple; a surplus operand makes _build_fstring return None. C18-MERGE: operand order of the f-string merges in visit_AddNode. '
+           'C18-JOINPY: every path of the accounting loop counts the part in the length (literal len / run-time index / repetition) and in the kind unless c_format_spec is not None and its '
+           "type character is not 'c'; repetition factors reach every emitted accumulation; the table keeps every count >= 2; kind shortcut only for kind 4; values array filled at the "
+           'loop index; the emitted join call passes (array, count, length temp, kind temp); get_ustring_kind == CPython kind boundaries. '
+           "C18-TYPES: default_format_spec per C type in the set that gives str(x) (int: ''/'d', bool/float: ''); bint: falsy spec -> True/False helper with the texts str(True)/str(False), "
+           "selection on non-zero; return code -> str(None); external typedef passes itself as name_type. C18-STRSEL: a non-converting str() helper only on statically-str paths.")
+NOT_DECIDED = ('the digits themselves beyond the step relations (C18-LAYOUT takes the digit run as opaque and relies on the loop summary established by C18-DIGITS); the text produced by '
+               'PyOS_double_to_string / PyObject_Format themselves; the character-by-character fallback of __Pyx_PyUnicode_Join (no _PyUnicode_FastCopyCharacters) and its overflow checks; '
+               "the range guard of the 'c' format (rule C18-CHRRANGE is written but not registered: pending finding FINDING_C18_1 - on the unmodified tree every value >= 2**21 passes the guard); "
+               'which adjacent literals simplify_JoinedStrNode merges (contents of node lists: needs relational reasoning about sequences, no engine for it); which operands the f-string '
+               'de-duplication may share beyond the key (is_name/is_simple: how often an expression is evaluated is decided under C20, and whether a value changes between two uses is a '
+               'run-time property); the width limit 2**30 of can_coerce_to_pystring; invalid %-templates (a "-" after the '
                'width, unknown type characters), the "#" and "+" flags and "*" widths (not admitted by the rewrite regex - ANALYSIS-ERROR if it starts admitting them); the '
                'error type for mismatched operands (known finding K6: "%x" % 2.5 raises ValueError instead of TypeError); format specs that are not literals; unicode digits in '
                'widths; the "z" option is only checked as a field the helpers cannot express.')
@@ -108,6 +137,9 @@ MUTATIONS = [
     ('Cython/Compiler/PyrexTypes.py', "FIX: strip '-' only when format_type != 'c'; after '>' return None for a following '0'", 'C18-INT goes silent'),
     ('Cython/Compiler/ExprNodes.py', "FIX: `(not c_format_spec or self.conversion_char in (None, 'd')) and can_coerce_to_pystring(...)`", 'C18-CONV goes silent'),
 ]
+# Fourth round: 51 + 29 + 6 + 3 brainstormed mutants with their outcomes before/after are kept as patches under /verif/mutants/C18/ (meta.json: breaking?, caught_by); the ones recorded as
+# caught are replayed by the thorough tier.  Rules added in that round: C18-DIGITS, C18-LAYOUT, C18-CHRPAD, C18-JOINC, C18-CHELP (rules/s4C18.py), C18-FOLD, C18-EMIT, C18-CONVSEL,
+# C18-ARITY, C18-MERGE, C18-JOINPY, C18-TYPES, C18-STRSEL (rules/sC18.py); written but not registered: C18-CHRRANGE (pending finding).
 SILENT_EDITS = [   # behaviour-preserving, no new violation
     "CIntLike._parse_format: `in 'odxXc'` -> `in ('o', 'd', 'x', 'X', 'c')`",
     "CIntLike._parse_format: `prefix[0] in '>-'` -> `prefix.startswith('>') or prefix.startswith('-')`",
@@ -150,12 +182,18 @@ class _Ctx:
 
 
 def run(ctx):
-    from ..rules import fmtascii, sC18
+    from ..rules import fmtascii, sC18, s4C18
     site = pC18.PyCallSite(ctx, 'CIntLike')
     helper = pC18.IntHelper(ctx)
     r_int, accepted = pC18.rule_int(ctx, site, helper)
     names = lambda n: n in ('__Pyx_PyUnicode_Join', '__Pyx_PyUnicode_FromDouble')
     r_i5 = iface.rule_I5(_Ctx(ctx), modules=('ExprNodes', 'PyrexTypes'), names=names, floor=2, rid='C18-I5')
+    fmt_chars = {d.get('type') or 'd' for d in accepted} & set(s4C18.BASE_OF) or None
+    # C18-ASCII (shared file): floor 0 here - when the type-character test disappears altogether the obligation is decided by C18-JOINPY:kind-accounting,
+    # which reports the unguarded path instead of ending in ANALYSIS-ERROR.
+    # s4C18.rule_chrrange is NOT registered:  # pending finding  (FINDING_C18_1: the range guard of the 'c' format lets every value >= 2**21 through)
     return [r_int, pC18.rule_chr(ctx, accepted), pC18.rule_dbl(ctx), pC18.rule_call(ctx), r_i5, pC18.rule_fmtfn(ctx),
-            pC18.rule_trn(ctx), pC18.rule_conv(ctx), pC18.rule_key(ctx), fmtascii.rule_ascii(ctx),
-            sC18.rule_memo(ctx), sC18.rule_strnone(ctx)]
+            pC18.rule_trn(ctx), pC18.rule_conv(ctx), pC18.rule_key(ctx), fmtascii.rule_ascii(ctx, floor=0),
+            sC18.rule_memo(ctx), sC18.rule_strnone(ctx),
+            s4C18.rule_digits(ctx, fmt_chars), s4C18.rule_layout(ctx), s4C18.rule_chrpad(ctx), s4C18.rule_joinc(ctx), s4C18.rule_chelp(ctx),
+            sC18.rule_fold(ctx), sC18.rule_emit(ctx), sC18.rule_convsel(ctx), sC18.rule_arity(ctx), sC18.rule_merge(ctx), sC18.rule_joinpy(ctx), sC18.rule_types(ctx), sC18.rule_strsel(ctx)]
